@@ -243,6 +243,12 @@ func (c *checkSchema) checkLinksOfNode(node schema.Node, ss map[string]schema.Ty
 	}
 
 	c.collectAllowedJsonTypes(node, ss)
+	// The rule-set of an "or" rule ({type: "@foo", nullable: true}) has no
+	// example of its own: it is made with the one of the outer node, which may
+	// belong to another alternative, and is checked with the outer node.
+	if _, ok := node.(*schema.MixedNode); ok {
+		return
+	}
 	if _, ok := c.allowedJsonTypes[node.Type()]; !ok {
 		panic(errors.ErrIncorrectUserType)
 	}
